@@ -159,6 +159,7 @@ Section Stable.
       + intros x Hx Ec. left. eapply same_commit_rollback; [exact Hwf|apply Hcs; exact H|exact Hx|exact Ec].
     - (* gc *)
       subst c. cbn [gc_ok] in Hgc. apply gc_writes_read; [exact (wf_desc _ _ Hwf)|apply N.leb_le; exact Hgc].
+    - subst c. discriminate.
   Qed.
 
   Lemma step_read_stable st c k t : wf_store W st -> cmd_in W c -> safe_step st c k t = true ->
@@ -223,7 +224,7 @@ Section Rules.
     forall l, ks_lock x = Some l -> data_lock l = false \/ pairs_above t (l_start l) P = true.
   Proof.
     intros Hr Ht Hg l' El'. destruct Ht; cbn [ks_lock] in El'; try discriminate.
-    - inversion El'; subst l'0. right. subst c. rewrite H4. eapply prewrite_rule_above; eassumption.
+    - inversion El'; subst l'0. right. subst c. rewrite H5. eapply prewrite_rule_above; eassumption.
     - inversion El'; subst l'0. right. subst c. rewrite H5. eapply prewrite_rule_above; eassumption.
     - inversion El'; subst l'. left. reflexivity.
     - destruct H0 as [E|E]; [subst lk; discriminate|]. subst lk. apply Hg; exact El'.
